@@ -1,65 +1,119 @@
-(* C11 — assembly: the partial theorem for every input of `plain`. *)
+(* C11 — assembly: the full theorem, zix_normal s = std_normal s (as text) for every C string. *)
 From Coq Require Import ZArith List Bool Lia ZifyBool.
 From Zix Require Import PathNormSpec PathNormModel PathNormProofsSpec PathNormProofsModel PathNormProofsDD PathNormProofsTail.
 Import ListNotations.
 Local Open Scope Z_scope.
 
-(* ---- state after the first pass (root copy + copy loop), for at most one leading separator --- *)
-Lemma pass1_k : forall s k rel,
-  (k = 0 \/ k = 1) -> s <> [] -> s = root_acc k ++ rel -> has_root rel = false -> c_string s ->
-  exists m', pass1 s = Some (k, Z.of_nat (length (rev (emit (fields rel)) ++ root_acc k)),
-                             B (rev (emit (fields rel)) ++ root_acc k) m') /\
-             (length (rev (emit (fields rel)) ++ root_acc k) + m' = length s + 2)%nat /\ (1 < m')%nat /\
-             Forall (fun c => c <> 0) (rev (emit (fields rel)) ++ root_acc k).
+(* ---- every string is a run of separators followed by a part that does not start with one ---- *)
+Lemma lead_split : forall s, exists k rel, s = repeat SEP k ++ rel /\ has_root rel = false.
 Proof.
-  intros s k rel Hk Hne Hs Hrel Hnz.
-  set (acc' := rev (emit (fields rel)) ++ root_acc k) in *.
-  assert (Hlen : length s = (Z.to_nat k + length rel)%nat).
-  { rewrite Hs, app_length. destruct Hk as [-> | ->]; reflexivity. }
-  assert (S1 : exists re rb, root_path_range s = Some (rb, re) /\ re = k /\ sz (re - rb) = k /\
-               copy_root (S (length s)) s k 0 0 (repeat 0 (length s + 2))
-               = Some (k, B (root_acc k) (length s + 2 - Z.to_nat k))).
-  { destruct Hk as [-> | ->].
-    - change (root_acc 0) with (@nil Z) in *. cbn [app] in Hs. subst rel.
-      exists 0, 0. unfold root_path_range.
-      destruct s as [|c s']; [congruence|]. cbn in Hrel. unfold is_sep, rd, get. cbn. rewrite Hrel.
-      repeat split.
-    - change (root_acc 1) with [SEP] in *. exists 1, 0. unfold root_path_range. subst s.
-      unfold is_sep, rd. change (get ([SEP] ++ rel) 0) with SEP. rewrite Z.eqb_refl.
-      cbn [root_dir_loop length app]. unfold is_sep, rd.
-      assert (G1 : get (SEP :: rel) 1 =? SEP = false).
-      { unfold get. cbn. destruct rel as [|c rel']; [reflexivity|exact Hrel]. }
-      rewrite G1. repeat split.
-      cbn [copy_root]. replace (0 <? 1) with true by reflexivity.
-      unfold is_sep, rd. change (get (SEP :: rel) 0) with SEP. rewrite Z.eqb_refl.
-      replace (0 + 1 <? 1) with false by reflexivity. cbn [length].
-      set (n := (S (length rel) + 2 - Z.to_nat 1)%nat).
-      replace (S (length rel) + 2)%nat with (S n) by (subst n; lia).
+  induction s as [|c s IH]; [exists 0%nat, []; split; reflexivity|].
+  destruct (c =? SEP) eqn:E.
+  - apply Z.eqb_eq in E. subst c. destruct IH as (k & rel & -> & Hr). exists (S k), rel. split; [reflexivity|exact Hr].
+  - exists 0%nat, (c :: s). split; [reflexivity|cbn; exact E].
+Qed.
+
+Lemma fields_lead : forall k rel, fields (repeat SEP k ++ rel) = repeat [] k ++ fields rel.
+Proof.
+  induction k as [|k IH]; intro rel; [reflexivity|]. cbn [repeat app fields]. rewrite Z.eqb_refl, IH. reflexivity.
+Qed.
+
+Lemma elems_of_lead : forall k F, F <> [] -> elems_of (repeat [] k ++ F) = elems_of F.
+Proof.
+  induction k as [|k IH]; intros F N; [reflexivity|]. cbn [repeat app].
+  rewrite elems_of_cons_empty; [apply IH; exact N|]. destruct k; [exact N|discriminate].
+Qed.
+
+Lemma rd_lead_lt : forall k rel (e : nat), (e < k)%nat -> rd (repeat SEP k ++ rel) (Z.of_nat e) = SEP.
+Proof.
+  intros k rel e H. unfold rd, get. replace (Z.of_nat e <? 0) with false by lia. rewrite Nat2Z.id.
+  rewrite app_nth1 by (rewrite repeat_length; exact H).
+  rewrite (nth_indep _ 0 SEP) by (rewrite repeat_length; exact H). apply nth_repeat.
+Qed.
+
+Lemma rd_lead_at : forall k rel, has_root rel = false -> is_sep (rd (repeat SEP k ++ rel) (Z.of_nat k)) = false.
+Proof.
+  intros k rel H. unfold is_sep, rd, get. replace (Z.of_nat k <? 0) with false by lia. rewrite Nat2Z.id.
+  rewrite app_nth2 by (rewrite repeat_length; lia). rewrite repeat_length, Nat.sub_diag.
+  destruct rel as [|c rel']; [reflexivity|exact H].
+Qed.
+
+Lemma root_dir_loop_lead : forall n k rel e fuel, has_root rel = false -> (e + n = k)%nat -> (1 <= e)%nat ->
+  (n < fuel)%nat ->
+  root_dir_loop fuel (repeat SEP k ++ rel) (Z.of_nat e - 1) (Z.of_nat e) = Some (Z.of_nat k - 1, Z.of_nat k).
+Proof.
+  induction n as [|n IH]; intros k rel e fuel Hr He H1 Hf; (destruct fuel as [|f]; [lia|]); cbn [root_dir_loop].
+  - replace e with k by lia. rewrite rd_lead_at by exact Hr. reflexivity.
+  - unfold is_sep. rewrite rd_lead_lt by lia. rewrite Z.eqb_refl.
+    replace (Z.of_nat e) with (Z.of_nat (S e) - 1) at 1 by lia.
+    replace (Z.of_nat e + 1) with (Z.of_nat (S e)) by lia.
+    apply IH; try assumption; lia.
+Qed.
+
+Definition rlen (k : nat) : Z := match k with O => 0 | _ => 1 end.
+
+Lemma root_range_lead : forall k rel, has_root rel = false -> repeat SEP k ++ rel <> [] ->
+  exists rb, root_path_range (repeat SEP k ++ rel) = Some (rb, Z.of_nat k) /\ sz (Z.of_nat k - rb) = rlen k.
+Proof.
+  intros k rel Hr Hne. unfold root_path_range. destruct k as [|k'].
+  - change (Z.of_nat 0) with 0. pose proof (rd_lead_at 0 rel Hr) as E. change (Z.of_nat 0) with 0 in E. rewrite E.
+    exists 0. split; reflexivity.
+  - unfold is_sep. change 0 with (Z.of_nat 0) at 1. rewrite rd_lead_lt by lia. rewrite Z.eqb_refl.
+    pose proof (root_dir_loop_lead k' (S k') rel 1 (S (length (repeat SEP (S k') ++ rel))) Hr ltac:(lia) ltac:(lia)) as Q.
+    change (Z.of_nat 1 - 1) with 0 in Q. change (Z.of_nat 1) with 1 in Q. rewrite Q.
+    + exists (Z.of_nat (S k') - 1). split; [reflexivity|]. replace (Z.of_nat (S k') - (Z.of_nat (S k') - 1)) with 1 by lia. reflexivity.
+    + rewrite app_length, repeat_length. lia.
+Qed.
+
+(* ---- the state after the first pass, for every input ------------------------------------------------ *)
+Lemma pass1_gen : forall s k rel,
+  s <> [] -> s = repeat SEP k ++ rel -> has_root rel = false -> c_string s ->
+  exists m', pass1 s = Some (rlen k, Z.of_nat (length (rev (emit (fields rel)) ++ root_acc (rlen k))),
+                             B (rev (emit (fields rel)) ++ root_acc (rlen k)) m') /\
+             (length (rev (emit (fields rel)) ++ root_acc (rlen k)) + m' = length s + 2)%nat /\ (1 < m')%nat /\
+             Forall (fun c => c <> 0) (rev (emit (fields rel)) ++ root_acc (rlen k)).
+Proof.
+  intros s k rel Hne Hs Hrel Hnz.
+  set (rl := rlen k). assert (Hrl : rl = 0 \/ rl = 1) by (unfold rl; destruct k; [left|right]; reflexivity).
+  set (acc' := rev (emit (fields rel)) ++ root_acc rl) in *.
+  assert (Hlen : length s = (k + length rel)%nat) by (rewrite Hs, app_length, repeat_length; reflexivity).
+  assert (Hkl : (Z.to_nat rl <= k)%nat) by (unfold rl; destruct k; cbn; lia).
+  destruct (root_range_lead k rel Hrel ltac:(rewrite <- Hs; exact Hne)) as (rb & R1 & R3). rewrite <- Hs in R1. fold rl in R3.
+  assert (R4 : copy_root (S (length s)) s rl 0 0 (repeat 0 (length s + 2))
+               = Some (rl, B (root_acc rl) (length s + 2 - Z.to_nat rl))).
+  { unfold rl. destruct k as [|k'].
+    - cbn [rlen copy_root]. replace (0 <? 0) with false by reflexivity. cbn [Z.to_nat]. rewrite Nat.sub_0_r. reflexivity.
+    - cbn [rlen]. destruct s as [|c0 s0]; [congruence|].
+      change (S (length (c0 :: s0))) with (S (S (length s0))). cbn [copy_root].
+      replace (0 <? 1) with true by reflexivity. replace (0 + 1 <? 1) with false by reflexivity.
+      assert (E0 : rd (c0 :: s0) 0 = SEP).
+      { rewrite Hs. change 0 with (Z.of_nat 0). apply rd_lead_lt. lia. }
+      rewrite E0. unfold is_sep. rewrite Z.eqb_refl.
+      set (n := (length (c0 :: s0) + 2 - Z.to_nat 1)%nat).
+      replace (length (c0 :: s0) + 2)%nat with (S n) by (subst n; cbn [length Z.to_nat Pos.to_nat Pos.iter_op]; lia).
       change (repeat 0 (S n)) with (B [] (S n)).
       rewrite set_push by reflexivity. reflexivity. }
-  destruct S1 as (re & rb & R1 & -> & R3 & R4).
-  assert (HP : P1 (S (length s)) rel ([] ++ root_acc k) = Some acc').
-  { pose proof (P1_spec (S (length s)) rel [] (root_acc k)) as Q. cbn [rev app] in *. apply Q.
+  assert (HP : P1 (S (length s)) rel ([] ++ root_acc rl) = Some acc').
+  { pose proof (P1_spec (S (length s)) rel [] (root_acc rl)) as Q. cbn [rev app] in *. apply Q.
     - lia.
-    - destruct Hk as [-> | ->]; reflexivity.
+    - destruct Hrl as [-> | ->]; reflexivity.
     - constructor.
     - intros _. exact Hrel. }
-  assert (Hskip : skipn (Z.to_nat k) s = rel).
-  { rewrite Hs. destruct Hk as [-> | ->]; reflexivity. }
-  destruct (copy_loop_refine s k (S (length s)) k [] (length s + 2 - Z.to_nat k) rel acc' Hk ltac:(lia)
-              ltac:(unfold zlen; lia) Hskip ltac:(lia) HP) as (m' & C1 & C2 & C3 & _).
+  assert (Hskip : skipn (Z.to_nat (Z.of_nat k)) s = rel).
+  { rewrite Nat2Z.id, Hs. apply skipn_exact. rewrite repeat_length. reflexivity. }
+  destruct (copy_loop_refine s (Z.of_nat k) rl (S (length s)) (Z.of_nat k) [] (length s + 2 - Z.to_nat rl) rel acc' Hrl
+              ltac:(lia) ltac:(lia) ltac:(unfold zlen; lia) Hskip ltac:(lia) HP) as (m' & C1 & C2 & C3 & _).
   cbn [app] in C1, C2.
-  assert (Lk : length (root_acc k) = Z.to_nat k) by (destruct Hk as [-> | ->]; reflexivity).
+  assert (Lk : length (root_acc rl) = Z.to_nat rl) by (destruct Hrl as [-> | ->]; reflexivity).
   rewrite Lk in C1, C2. rewrite Z2Nat.id in C1 by lia.
   assert (Nz : Forall (fun c => c <> 0) acc').
   { eapply (P1_forall (fun c => c <> 0)); [| | |exact HP].
     - cbv beta. discriminate.
     - unfold c_string in Hnz. rewrite Hs in Hnz. apply Forall_app in Hnz. apply Hnz.
-    - cbn [app]. destruct Hk as [-> | ->]; repeat constructor. discriminate. }
+    - cbn [app]. destruct Hrl as [-> | ->]; repeat constructor. discriminate. }
   exists m'. unfold pass1. rewrite R1, R3, R4, C1. repeat split; [lia|exact C3|exact Nz].
 Qed.
 
-(* ---- dropping empty and "." fields (except the last) does not change the spec machine -------- *)
 Lemma fold_filter_keepf : forall R X out t t',
   fst (fold_left (norm_step R) (filter keepf X) (out, t)) = fst (fold_left (norm_step R) X (out, t')).
 Proof.
@@ -81,44 +135,8 @@ Proof.
   rewrite (step_trail_irrelevant R o1 t1 t2). reflexivity.
 Qed.
 
-(* ---- what `plain` says about the fields ---------------------------------------------------------------- *)
-Lemma fields_single_empty : forall s, fields s = [[]] -> s = [].
-Proof.
-  destruct s as [|c s]; intro H; [reflexivity|]. cbn [fields] in H. destruct (c =? SEP).
-  - injection H as H1. exfalso. apply (fields_nonnil s). exact H1.
-  - destruct (fields s); discriminate.
-Qed.
-
-Lemma ends_sep_dot_cons : forall c s, ends_sep_dot s = true -> ends_sep_dot (c :: s) = true.
-Proof. intros c s H. destruct s as [|b [|d s']]; [discriminate|discriminate|exact H]. Qed.
-
-Lemma last_field_dot : forall s, last (fields s) [] = [DOT] -> s = [DOT] \/ ends_sep_dot s = true.
-Proof.
-  induction s as [|c s IH]; intro H; [discriminate|].
-  cbn [fields] in H. pose proof (fields_nonnil s) as N. destruct (c =? SEP) eqn:Ec.
-  - apply Z.eqb_eq in Ec. subst c. destruct (fields s) as [|f F] eqn:EF; [congruence|].
-    change (last ([] :: f :: F) []) with (last (f :: F) []) in H.
-    destruct (IH H) as [-> | E]; [right; reflexivity|right; apply ends_sep_dot_cons; exact E].
-  - destruct (fields s) as [|f F] eqn:EF; [congruence|]. destruct F as [|g F'].
-    + cbn in H. inversion H; subst. rewrite (fields_single_empty s EF). left. reflexivity.
-    + change (last ((c :: f) :: g :: F') []) with (last (f :: g :: F') []) in H.
-      destruct (IH H) as [-> | E]; [cbn in EF; discriminate|right; apply ends_sep_dot_cons; exact E].
-Qed.
-
-Lemma In_fields_elems : forall s f, In f (fields s) -> f <> [] -> In f (elems s).
-Proof.
-  intros s f Hin Hne. rewrite elems_unfold. unfold elems_of.
-  pose proof (fields_nonnil s) as N. destruct (exists_last N) as (X & l & E). rewrite E in *.
-  rewrite removelast_app1, last_app1.
-  apply in_app_or in Hin as [Hin | [<- | []]].
-  - assert (In f (filter (fun e => negb (is_empty e)) X)).
-    { apply filter_In. split; [exact Hin|]. destruct f; [congruence|reflexivity]. }
-    destruct (filter (fun e => negb (is_empty e)) X) as [|n names]; [destruct H|].
-    apply in_or_app. left. exact H.
-  - destruct (filter (fun e => negb (is_empty e)) X) as [|n names].
-    + destruct l; [congruence|]. left. reflexivity.
-    + apply in_or_app. right. left. reflexivity.
-Qed.
+Fixpoint all_dots (e : elem) : bool :=
+  match e with [] => true | c :: e' => Z.eqb c DOT && all_dots e' end.
 
 Lemma alldots_of_noname : forall f, sepfree f -> existsb nsd f = false -> all_dots f = true.
 Proof.
@@ -126,71 +144,6 @@ Proof.
   pose proof (Forall_inv Hs) as Hc. pose proof (Forall_inv_tail Hs) as Hs'. cbv beta in Hc.
   cbn in H. apply orb_false_iff in H as [N1 N2]. cbn [all_dots]. rewrite (IH Hs' N2), andb_true_r.
   unfold nsd in N1. apply Z.eqb_neq in Hc. rewrite Hc in N1. cbn in N1. apply negb_false_iff in N1. exact N1.
-Qed.
-
-Lemma isname_not_alldots : forall f, isname f = true -> all_dots f = false.
-Proof.
-  induction f as [|c f IH]; intro H; [discriminate|]. cbn in H. cbn [all_dots].
-  apply orb_true_iff in H as [H | H].
-  - unfold nsd in H. apply andb_true_iff in H as [_ H]. apply negb_true_iff in H. rewrite H. reflexivity.
-  - rewrite (IH H). apply andb_false_r.
-Qed.
-
-Lemma ends_dotdot_len : forall f, ends_dotdot f = true -> all_dots f = false -> (3 <= length f)%nat.
-Proof.
-  intros f H A. destruct f as [|a [|b [|c f']]]; try discriminate.
-  - cbn in H. cbn in A. apply andb_true_iff in H as [H1 H2]. rewrite H1, H2 in A. discriminate.
-  - cbn. lia.
-Qed.
-
-Lemma plain_parts : forall s, plain s = true ->
-  class_A s = false /\ class_B s = false /\ class_C s = false /\ class_D s = false.
-Proof.
-  intros s H. unfold plain in H. repeat (apply andb_true_iff in H; destruct H as [H ?]).
-  repeat split; apply negb_true_iff; assumption.
-Qed.
-
-Lemma field_class : forall s f, plain s = true -> c_string s -> In f (fields s) -> keepf f = true ->
-  fld f /\ (f = DD \/ ends_dotdot f = false).
-Proof.
-  intros s f Hp Hc Hin Hk. destruct (plain_parts s Hp) as (_ & HB & HC & _).
-  assert (Hne : f <> []) by (intro A; subst; discriminate).
-  assert (Hg : gf0 f).
-  { repeat split; [| |exact Hne].
-    - pose proof (fields_sepfree_all s) as F. rewrite Forall_forall in F. apply F. exact Hin.
-    - pose proof (fields_forall_bytes (fun x => x <> 0) s Hc) as F. rewrite Forall_forall in F. apply F. exact Hin. }
-  pose proof (In_fields_elems s f Hin Hne) as He.
-  destruct (isname f) eqn:En.
-  - split; [right; split; assumption|]. right.
-    destruct (ends_dotdot f) eqn:Ed; [|reflexivity]. exfalso.
-    pose proof (isname_not_alldots f En) as A. pose proof (ends_dotdot_len f Ed A) as L.
-    unfold class_C in HC. rewrite <- not_true_iff_false in HC. apply HC. apply existsb_exists.
-    exists f. split; [exact He|]. apply Nat.leb_le in L. rewrite A, Ed, L. reflexivity.
-  - destruct Hg as (Hs & Hz & _). pose proof (alldots_of_noname f Hs En) as A.
-    assert (f = DD).
-    { destruct f as [|a [|b [|c f']]]; [congruence| | |].
-      - cbn in A. rewrite andb_true_r in A. apply Z.eqb_eq in A. subst. discriminate.
-      - cbn in A. apply andb_true_iff in A as [A1 A2]. rewrite andb_true_r in A2. apply Z.eqb_eq in A1, A2. subst. reflexivity.
-      - exfalso. unfold class_B in HB. rewrite <- not_true_iff_false in HB. apply HB. apply existsb_exists.
-        exists (a :: b :: c :: f'). split; [exact He|]. rewrite A. reflexivity. }
-    subst. split; [left; reflexivity|left; reflexivity].
-Qed.
-
-Lemma dd_not_tail : forall s, In DD (fields s) -> class_D s = false -> last (fields s) [] <> [DOT].
-Proof.
-  intros s Hin HD E. pose proof (In_fields_elems s DD Hin ltac:(discriminate)) as He.
-  unfold class_D in HD.
-  assert (X : existsb is_dotdot (elems s) = true) by (apply existsb_exists; exists DD; split; [exact He|reflexivity]).
-  rewrite X in HD. cbn [andb] in HD.
-  destruct (last_field_dot s E) as [-> | E2]; [|congruence].
-  cbn in Hin. destruct Hin as [A | []]. discriminate.
-Qed.
-
-Lemma forallb_false_ex : forall (A : Type) (p : A -> bool) l, forallb p l = false -> exists x, In x l /\ p x = false.
-Proof.
-  induction l as [|a l IH]; intro H; [discriminate|]. cbn in H. apply andb_false_iff in H as [H | H].
-  - exists a. split; [left; reflexivity|exact H].
-  - destruct (IH H) as (x & Hx & Px). exists x. split; [right; exact Hx|exact Px].
 Qed.
 
 Lemma dd_abs_len : forall f i t last next r,
@@ -206,10 +159,10 @@ Proof.
     apply IH in H; [lia|left; reflexivity|lia].
   - pose proof (nxt_le t i next Hn) as Hn1.
     apply IH in H; [exact H| |lia].
-    unfold lst. destruct (nsd (nth i t 0)); [right; lia|]. destruct Hl; [left; assumption|right; lia].
+    unfold lst. destruct (lcond _ _ _); [right; lia|]. destruct Hl; [left; assumption|right; lia].
 Qed.
 
-Lemma nonzero_TX : forall k D N tl, (k = 0 \/ k = 1) -> allDD D -> allnm N -> (tl = [] \/ tl = [[]]) ->
+Lemma nonzero_TX : forall k D N tl, (k = 0 \/ k = 1) -> allDD D -> allnm N -> tlok tl ->
   nonzero (TX k (D ++ N ++ tl)).
 Proof.
   intros k D N tl Hk HD HN Htl. unfold TX, nonzero. apply Forall_app. split.
@@ -217,67 +170,80 @@ Proof.
   - apply join_forall_bytes; [discriminate|]. rewrite !Forall_app. repeat split.
     + eapply Forall_impl; [|exact HD]. intros a ->. repeat constructor; discriminate.
     + eapply Forall_impl; [|exact HN]. intros a ((_ & Hz & _) & _). exact Hz.
-    + destruct Htl as [-> | ->]; repeat constructor.
+    + destruct Htl as [-> | [-> | ->]]; repeat constructor. discriminate.
 Qed.
 
-(* the three shapes of what follows the leading ".." fields *)
-Lemma follow_shape : forall k D N tl, (k = 0 \/ k = 1) -> allDD D -> allnm N -> (tl = [] \/ tl = [[]]) ->
-  N ++ tl = [] \/ N ++ tl = [[]] \/
-  exists n X', N ++ tl = n :: X' /\ nm n /\ nonzero (join_elems (N ++ tl)).
+Lemma field_fld : forall f, sepfree f -> nonzero f -> keepf f = true -> fld f.
 Proof.
-  intros k D N tl Hk HD HN Htl. destruct N as [|n N'].
-  - destruct Htl as [-> | ->]; [left; reflexivity|right; left; reflexivity].
-  - right. right. exists n, (N' ++ tl). split; [reflexivity|]. split; [inversion HN; assumption|].
-    pose proof (nonzero_TX k [] (n :: N') tl Hk (Forall_nil _) HN Htl) as Z0. unfold TX, nonzero in Z0.
-    apply Forall_app in Z0. apply Z0.
+  intros f Hs Hz Hk. assert (Hne : f <> []) by (intro A; subst; discriminate).
+  destruct (isname f) eqn:En; [right; repeat split; assumption|]. left.
+  unfold isname in En. apply orb_false_iff in En as [E1 E2].
+  pose proof (alldots_of_noname f Hs E1) as A.
+  destruct f as [|a [|b [|c f']]]; [congruence| | |discriminate].
+  - cbn in A. rewrite andb_true_r in A. apply Z.eqb_eq in A. subst. discriminate.
+  - cbn in A. apply andb_true_iff in A as [A1 A2]. rewrite andb_true_r in A2. apply Z.eqb_eq in A1, A2. subst. reflexivity.
 Qed.
 
-(* ---- all four passes, for inputs whose kept fields are names or ".." ---------------------------- *)
-Definition goodf (f : elem) : Prop := fld f /\ (f = DD \/ ends_dotdot f = false).
+(* what follows the leading ".." fields after the second pass *)
+Lemma follow_Xok : forall N tl, allnm N -> tlok tl -> Xok (N ++ tl).
+Proof.
+  intros N tl HN Htl. split.
+  - pose proof (nonzero_TX 0 [] N tl (or_introl eq_refl) (Forall_nil _) HN Htl) as Z0. exact Z0.
+  - destruct N as [|n N'].
+    + destruct Htl as [-> | [-> | ->]]; [left|right; left|right; right; left]; reflexivity.
+    + right. right. right. exists n, (N' ++ tl). split; [reflexivity|inversion HN; assumption].
+Qed.
 
-Lemma zix_normal_k_plain : forall s k rel,
-  (k = 0 \/ k = 1) -> s <> [] -> s = root_acc k ++ rel -> has_root rel = false -> c_string s ->
-  Z.of_nat (length s) + 2 < W64 ->
-  has_root s = (k =? 1) -> elems s = elems_of (fields rel) ->
-  (forall f, In f (fields rel) -> keepf f = true -> goodf f) ->
-  last (fields rel) [] <> [DOT] ->
+(* ---- all four passes ----------------------------------------------------------------------------------------- *)
+Lemma zix_normal_all : forall s, c_string s -> Z.of_nat (length s) + 2 < W64 ->
   zix_normal_opt s = Some (std_normal s).
 Proof.
-  intros s k rel Hk Hne Hs Hrel Hc HW HR HE Hfld Hlast.
+  intros s Hc HW. destruct s as [|c0 s0] eqn:Es0; [reflexivity|]. rewrite <- Es0 in *.
+  assert (Hne : s <> []) by (rewrite Es0; discriminate).
+  assert (Estd : std_normal s = render (has_root s) (normal_elems (has_root s) (elems s))) by (rewrite Es0; reflexivity).
+  clear Es0 c0 s0.
+  destruct (lead_split s) as (k0 & rel & Hs & Hrel).
+  assert (HR : has_root s = (rlen k0 =? 1)).
+  { rewrite Hs. destruct k0; [exact Hrel|reflexivity]. }
+  assert (Hk : rlen k0 = 0 \/ rlen k0 = 1) by (destruct k0; [left|right]; reflexivity).
+  remember (rlen k0) as k eqn:Ek0.
   pose proof (fields_nonnil rel) as Nfs.
+  assert (HE : elems s = elems_of (fields rel)).
+  { rewrite elems_unfold, Hs, fields_lead. apply elems_of_lead. exact Nfs. }
+  assert (Hcrel : c_string rel) by (unfold c_string in *; rewrite Hs in Hc; apply Forall_app in Hc; apply Hc).
   destruct (exists_last Nfs) as (X0 & l & Efs).
   set (K := filter keepf X0).
-  assert (HK : Forall goodf K).
+  assert (Hfld : forall f, In f (fields rel) -> keepf f = true -> fld f).
+  { intros f Hf Hkf. apply field_fld; [| |exact Hkf].
+    - pose proof (fields_sepfree_all rel) as F. rewrite Forall_forall in F. apply F. exact Hf.
+    - pose proof (fields_forall_bytes (fun x => x <> 0) rel Hcrel) as F. rewrite Forall_forall in F. apply F. exact Hf. }
+  assert (HK : Forall fld K).
   { apply Forall_forall. intros f Hf. apply filter_In in Hf as [Hin Hk']. apply Hfld; [|exact Hk'].
     rewrite Efs. apply in_or_app. left. exact Hin. }
-  assert (Hl : l = [] \/ goodf l).
+  assert (HHt : exists H tl, K ++ [l] = H ++ tl /\ Forall fld H /\ tlok tl).
   { destruct (keepf l) eqn:El.
-    - right. apply Hfld; [|exact El]. rewrite Efs. apply in_or_app. right. left. reflexivity.
-    - left. unfold keepf in El. apply negb_false_iff in El. apply orb_true_iff in El as [El | El].
-      + apply is_empty_eq. exact El.
-      + exfalso. apply Hlast. rewrite Efs, last_app1. apply is_dot_eq. exact El. }
-  assert (HHt : exists H tl, K ++ [l] = H ++ tl /\ Forall goodf H /\ (tl = [] \/ tl = [[]])).
-  { destruct Hl as [-> | Hl].
-    - exists K, [[]]. repeat split; auto.
-    - exists (K ++ [l]), []. rewrite app_nil_r. repeat split; auto. apply Forall_app. split; [exact HK|constructor; [exact Hl|constructor]]. }
-  destruct HHt as (H & tl & EH & HH & Htl).
-  assert (HF : Forall fld H) by (eapply Forall_impl; [|exact HH]; intros a [A _]; exact A).
+    - exists (K ++ [l]), []. rewrite app_nil_r. repeat split; [|left; reflexivity].
+      apply Forall_app. split; [exact HK|constructor; [|constructor]].
+      apply Hfld; [|exact El]. rewrite Efs. apply in_or_app. right. left. reflexivity.
+    - unfold keepf in El. apply negb_false_iff in El. apply orb_true_iff in El as [El | El].
+      + apply is_empty_eq in El. subst l. exists K, [[]]. repeat split; [exact HK|right; left; reflexivity].
+      + apply is_dot_eq in El. subst l. exists K, [[DOT]]. repeat split; [exact HK|right; right; reflexivity]. }
+  destruct HHt as (H & tl & EH & HF & Htl).
   (* the text after the first pass *)
   set (T := TX k (K ++ [l])).
   assert (Eemit : emit (fields rel) = body K ++ l).
   { rewrite emit_body by exact Nfs. rewrite Efs, removelast_app1, last_app1. reflexivity. }
   assert (ET : T = root_acc k ++ emit (fields rel)) by (unfold T, TX; rewrite join_snoc, Eemit; reflexivity).
-  destruct (pass1_k s k rel Hk Hne Hs Hrel Hc) as (m' & E1 & C2 & C3 & Nz).
+  destruct (pass1_gen s k0 rel Hne Hs Hrel Hc) as (m' & E1 & C2 & C3 & Nz). rewrite <- Ek0 in E1, C2, Nz.
   set (acc' := rev (emit (fields rel)) ++ root_acc k) in *.
   assert (Erev : rev acc' = T).
   { unfold acc'. rewrite rev_app_distr, rev_involutive, rev_root_acc. symmetry. exact ET. }
   assert (Elen : length acc' = length T) by (rewrite <- Erev; symmetry; apply rev_length).
   destruct m' as [|m'']; [lia|].
   assert (EB : B acc' (S m'') = T ++ 0 :: repeat 0 m'') by (unfold B; rewrite Erev; reflexivity).
-  assert (NzT : nonzero T) by (rewrite <- Erev; apply Forall_rev; exact Nz).
   (* the second pass *)
   destruct (pass2_plain k Hk (length H) H tl (le_n _) HF Htl)
-    as (D & N & tl' & HD & HN & Htl' & Hres & Hm & HP).
+    as (D & N & tl' & HD & HN & Htl' & Hres & Hm & _).
   rewrite <- EH in Hres, Hm. fold T in Hres.
   set (T2 := TX k (D ++ N ++ tl')) in *.
   set (fuel := ((length s + 2) * (length s + 2))%nat).
@@ -292,13 +258,6 @@ Proof.
   rewrite Ek in D1. change (Z.of_nat 0) with 0 in D1.
   destruct junk' as [|j junk'']; [cbn [length] in D2; lia|]. cbn [length] in D2.
   assert (NzT2 : nonzero T2) by (apply nonzero_TX; assumption).
-  (* names kept by the second pass do not end in ".." *)
-  assert (HEN : Forall (fun n => ends_dotdot n = false) N).
-  { pose proof (HP (fun e => e = DD \/ ends_dotdot e = false)
-                   ltac:(eapply Forall_impl; [|exact HH]; intros a [_ A]; exact A)) as Q.
-    apply Forall_app in Q as [_ Q]. apply Forall_forall. intros n Hn.
-    rewrite Forall_forall in Q. destruct (Q n Hn) as [-> | A]; [|exact A].
-    pose proof HN as HN0. unfold allnm in HN0. rewrite Forall_forall in HN0. exfalso. apply (nm_not_dd DD (HN0 DD Hn)). reflexivity. }
   (* third pass and tail *)
   assert (P34 : exists bufF, pass34 k (Z.of_nat (length T2)) (T2 ++ 0 :: j :: junk'') = Some bufF /\
                 cstr bufF = render (k =? 1) (normal_elems (k =? 1) (D ++ N ++ tl'))).
@@ -311,92 +270,27 @@ Proof.
           destruct (is_sep (get (T2 ++ 0 :: j :: junk'') (1 - 1))); [|reflexivity].
           assert (Q : root_dotdot_scan (S (length (T2 ++ 0 :: j :: junk''))) (T2 ++ 0 :: j :: junk'') (Z.of_nat (length T2)) 1
                       = Some (Z.of_nat (length T2 - length (join_elems (N ++ tl'))))).
-          { exact (root_scan_D [] [SEP] (N ++ tl') (j :: junk'') _ (Forall_nil _)
-                     (follow_shape 1 [] N tl' (or_intror eq_refl) (Forall_nil _) HN Htl') (Nat.lt_0_succ _)). }
+          { exact (root_scan_D [] [SEP] (N ++ tl') (j :: junk'') _ (Forall_nil _) (follow_Xok N tl' HN Htl') (Nat.lt_0_succ _)). }
           rewrite Q.
           replace (Z.of_nat (length T2 - length (join_elems (N ++ tl'))) >? 1) with false; [reflexivity|].
           assert (length T2 = S (length (join_elems (N ++ tl')))) by reflexivity. lia.
         * rewrite tail_txt by exact NzT2. apply final_text; auto.
-      + destruct (pass34_root_dd d D' (N ++ tl') j junk'' HD
-                    (follow_shape 1 (d :: D') N tl' (or_intror eq_refl) HD HN Htl')) as (bufF & B1 & B2).
+      + destruct (pass34_root_dd d D' (N ++ tl') j junk'' HD (follow_Xok N tl' HN Htl')) as (bufF & B1 & B2).
         * change (SEP :: join_elems ((d :: D') ++ N ++ tl')) with T2. lia.
-        * exists bufF. split; [exact B1|]. rewrite B2. apply final_text_root_dd; assumption. }
+        * exists bufF. split; [exact B1|]. rewrite B2.
+          change (SEP :: join_elems (N ++ tl')) with (TX 1 ([] ++ N ++ tl')).
+          rewrite (final_text 1 [] N tl' (or_intror eq_refl) (Forall_nil _) HN Htl' (or_intror eq_refl)).
+          change (1 =? 1) with true. rewrite (machine_drop_dd (d :: D') N tl' HD HN Htl'). reflexivity. }
   destruct P34 as (bufF & B1 & B2).
   (* put the passes together *)
-  unfold zix_normal_opt, zix_normal_full. destruct s as [|c0 s0]; [congruence|].
-  set (s := c0 :: s0) in *.
+  rewrite Estd. unfold zix_normal_opt, zix_normal_full. destruct s as [|c1 s1]; [congruence|].
+  set (s := c1 :: s1) in *.
   rewrite E1. unfold pass2. fold fuel. rewrite Elen, EB, D1, B1. rewrite B2.
   f_equal.
   (* the spec side *)
-  unfold std_normal. fold s. change (match s with [] => [] | _ :: _ => render (has_root s) (normal_elems (has_root s) (elems s)) end)
-    with (render (has_root s) (normal_elems (has_root s) (elems s))).
   rewrite HR, HE. rewrite normal_elems_of_fields by exact Nfs. rewrite Efs.
   rewrite <- normal_elems_kept. fold K. rewrite Hm. reflexivity.
 Qed.
-
-(* ---- the theorem for the whole of `plain` ----------------------------------------------------------- *)
-Lemma zix_normal_plain : forall s, c_string s -> Z.of_nat (length s) + 2 < W64 -> plain s = true ->
-  zix_normal_opt s = Some (std_normal s).
-Proof.
-  intros s Hc HW Hp. destruct (no_dotdot_tail s) eqn:NT; [apply zix_normal_on_class; assumption|].
-  destruct (plain_parts s Hp) as (HA & HB & HC & HD).
-  unfold no_dotdot_tail in NT. rewrite HA in NT. cbn [negb andb] in NT.
-  destruct (forallb_false_ex _ _ _ NT) as (f0 & Hf0 & Ef0). apply negb_false_iff in Ef0.
-  assert (Hdd : In DD (fields s)).
-  { assert (Hk0 : keepf f0 = true).
-    { unfold keepf, is_dot. destruct f0 as [|a [|b f']]; [discriminate|discriminate|]. cbn [is_empty bytes_eqb orb]. rewrite andb_false_r. reflexivity. }
-    destruct (field_class s f0 Hp Hc Hf0 Hk0) as [_ [-> | A]]; [exact Hf0|congruence]. }
-  pose proof (dd_not_tail s Hdd HD) as Hlast.
-  destruct s as [|c s']; [destruct Hdd as [A | []]; discriminate|].
-  destruct (c =? SEP) eqn:Ec.
-  - apply Z.eqb_eq in Ec. subst c.
-    assert (EF : fields (SEP :: s') = [] :: fields s') by (cbn [fields]; rewrite Z.eqb_refl; reflexivity).
-    assert (Hrel : has_root s' = false) by (destruct s' as [|d s'']; [reflexivity|]; cbn in HA; cbn; exact HA).
-    assert (HEl : elems (SEP :: s') = elems_of (fields s')).
-    { rewrite elems_unfold, EF. apply elems_of_cons_empty. apply fields_nonnil. }
-    assert (Hfld : forall f, In f (fields s') -> keepf f = true -> goodf f).
-    { intros f Hf Hk. apply (field_class (SEP :: s') f Hp Hc); [rewrite EF; right; exact Hf|exact Hk]. }
-    assert (Hlast' : last (fields s') [] <> [DOT]).
-    { rewrite EF in Hlast. pose proof (fields_nonnil s') as N. destruct (fields s') as [|g G]; [congruence|]. exact Hlast. }
-    exact (zix_normal_k_plain (SEP :: s') 1 s' (or_intror eq_refl) ltac:(discriminate) eq_refl Hrel Hc HW eq_refl HEl Hfld Hlast').
-  - assert (Hrel : has_root (c :: s') = false) by (cbn; exact Ec).
-    assert (Hfld : forall f, In f (fields (c :: s')) -> keepf f = true -> goodf f).
-    { intros f Hf Hk. apply (field_class (c :: s') f Hp Hc Hf Hk). }
-    exact (zix_normal_k_plain (c :: s') 0 (c :: s') (or_introl eq_refl) ltac:(discriminate) eq_refl Hrel Hc HW Hrel
-             (elems_unfold _) Hfld Hlast).
-Qed.
-
-(* ---- `plain` is closed under std_normal; idempotence of the model on `plain` -------------------- *)
-Lemma fields_split : forall p q, fields (p ++ SEP :: q) = fields p ++ fields q.
-Proof.
-  induction p as [|c p IH]; intro q.
-  - cbn [app fields]. rewrite Z.eqb_refl. reflexivity.
-  - cbn [app fields]. rewrite IH. destruct (c =? SEP); [reflexivity|].
-    pose proof (fields_nonnil p) as N. destruct (fields p) as [|f fs]; [congruence|]. reflexivity.
-Qed.
-
-Lemma ends_sep_dot_split : forall t, ends_sep_dot t = true -> exists p, t = p ++ [SEP; DOT].
-Proof.
-  induction t as [|a t IH]; intro H; [discriminate|].
-  destruct t as [|b [|c t']]; [discriminate| |].
-  - cbn in H. apply andb_true_iff in H as [H1 H2]. apply Z.eqb_eq in H1, H2. subst. exists []. reflexivity.
-  - change (ends_sep_dot (a :: b :: c :: t')) with (ends_sep_dot (b :: c :: t')) in H.
-    destruct (IH H) as (p & E). exists (a :: p). rewrite E. reflexivity.
-Qed.
-
-Lemma ends_sep_dot_elem : forall t, ends_sep_dot t = true -> In [DOT] (elems t).
-Proof.
-  intros t H. destruct (ends_sep_dot_split t H) as (p & ->).
-  apply In_fields_elems; [|discriminate]. rewrite fields_split. apply in_or_app. right. left. reflexivity.
-Qed.
-
-Lemma nds_not_A : forall t, no_double_sep t = true -> class_A t = false.
-Proof.
-  intros t H. destruct t as [|a [|b t']]; [reflexivity|reflexivity|].
-  change (no_double_sep (a :: b :: t')) with (negb ((a =? SEP) && (b =? SEP)) && no_double_sep (b :: t')) in H.
-  apply andb_true_iff in H as [H _]. apply negb_true_iff in H. exact H.
-Qed.
-
 Lemma std_normal_c_string : forall s, c_string s -> c_string (std_normal s).
 Proof.
   intros s Hc. destruct s as [|c s']; [constructor|].
@@ -410,46 +304,11 @@ Proof.
   - apply join_forall_bytes; [discriminate|assumption].
 Qed.
 
-Lemma std_normal_plain : forall s, plain s = true -> plain (std_normal s) = true.
-Proof.
-  intros s Hp. destruct s as [|c s']; [reflexivity|].
-  set (s := c :: s') in *. change (std_normal s) with (render (has_root s) (normal_elems (has_root s) (elems s))).
-  destruct (plain_parts s Hp) as (_ & HB & HC & _).
-  pose proof (normal_elems_wf s) as W. pose proof (normal_elems_shape (has_root s) (elems s)) as Sh.
-  set (R := has_root s) in *. set (es' := normal_elems R (elems s)) in *.
-  set (t := render R es').
-  assert (Eel : elems t = es') by (apply elems_render; exact W).
-  assert (HP : Forall (fun e => In e (elems s) \/ e = [DOT] \/ e = []) es').
-  { apply normal_elems_forall; [right; left; reflexivity|right; right; reflexivity|].
-    apply Forall_forall. intros e He. left. exact He. }
-  rewrite Forall_forall in HP.
-  unfold plain. apply andb_true_iff. split; [apply andb_true_iff; split; [apply andb_true_iff; split|]|]; apply negb_true_iff.
-  - apply nds_not_A. apply nds_render. exact W.
-  - unfold class_B. rewrite Eel. destruct (existsb _ es') eqn:E; [|reflexivity]. exfalso.
-    apply existsb_exists in E as (e & He & Pe). destruct (HP e He) as [Hin | [-> | ->]]; [|discriminate|discriminate].
-    unfold class_B in HB. rewrite <- not_true_iff_false in HB. apply HB. apply existsb_exists. exists e. split; assumption.
-  - unfold class_C. rewrite Eel. destruct (existsb _ es') eqn:E; [|reflexivity]. exfalso.
-    apply existsb_exists in E as (e & He & Pe). destruct (HP e He) as [Hin | [-> | ->]]; [|discriminate|discriminate].
-    unfold class_C in HC. rewrite <- not_true_iff_false in HC. apply HC. apply existsb_exists. exists e. split; assumption.
-  - unfold class_D. rewrite Eel. destruct (existsb is_dotdot es') eqn:E1; [|reflexivity]. cbn [andb].
-    destruct (ends_sep_dot t) eqn:E2; [|reflexivity]. exfalso.
-    pose proof (ends_sep_dot_elem t E2) as Hd. rewrite Eel in Hd.
-    apply existsb_exists in E1 as (e & He & Pe). apply is_dotdot_eq in Pe. subst e.
-    destruct Sh as [Rr|Rr|k Rr|k names tl Hr Hne Hpn Ht].
-    + destruct Hd.
-    + destruct He as [A | []]. discriminate.
-    + apply repeat_spec in Hd. discriminate.
-    + apply in_app_or in Hd as [Hd | Hd]; [apply repeat_spec in Hd; discriminate|].
-      apply in_app_or in Hd as [Hd | Hd].
-      * rewrite forallb_forall in Hpn. specialize (Hpn _ Hd). discriminate.
-      * destruct Ht as [-> | ->]; [destruct Hd|destruct Hd as [A | []]; discriminate].
-Qed.
 
-Lemma zix_normal_idem_plain : forall s, c_string s -> Z.of_nat (length s) + 2 < W64 ->
-  Z.of_nat (length (std_normal s)) + 2 < W64 -> plain s = true ->
+Lemma zix_normal_idem_all : forall s, c_string s -> Z.of_nat (length s) + 2 < W64 ->
+  Z.of_nat (length (std_normal s)) + 2 < W64 ->
   zix_normal (zix_normal s) = zix_normal s.
 Proof.
-  intros s Hc HW HW' Hp. unfold zix_normal at 2 3. rewrite (zix_normal_plain s Hc HW Hp).
-  unfold zix_normal. rewrite (zix_normal_plain _ (std_normal_c_string s Hc) HW' (std_normal_plain s Hp)).
-  apply std_normal_idem.
+  intros s Hc HW HW'. unfold zix_normal at 2 3. rewrite (zix_normal_all s Hc HW).
+  unfold zix_normal. rewrite (zix_normal_all _ (std_normal_c_string s Hc) HW'). apply std_normal_idem.
 Qed.
